@@ -35,7 +35,10 @@ func (p *CommandToParams) Run() {
 
 	out, err := exec.Command("bash", "-c", p.command).CombinedOutput()
 	if err != nil {
-		panic("Could not run command: " + p.command + "\nERROR: " + err.Error())
+		// (Not panic: a panic first runs the deferred CloseAllOutPorts(), upon which
+		// the downstream processes can finish and the workflow can report
+		// success before the panic has stopped the program)
+		p.Failf("Could not run command: %s\nERROR: %s", p.command, err.Error())
 	}
 	scanner := bufio.NewScanner(strings.NewReader(string(out)))
 	for scanner.Scan() {
